@@ -48,6 +48,13 @@ pub proof fn lemma_wrapping_mul_assoc(x: int, c1: int, c2: int)
   lemma_wrap32_congruent(x * wrap32(c1 * c2), x * c1 * c2, x * k2);
 }
 
+/// a * b == b * a in wrapping arithmetic: exchanging the operands of MUL keeps the value
+pub proof fn lemma_wrapping_mul_commutes(a: int, b: int)
+  ensures wrap32(a * b) == wrap32(b * a)  // :wrapping_mul_is_commutative
+{
+  lemma_mul_is_commutative(a, b);
+}
+
 /// (x + c1) + c2 == x + (c1 + c2) in wrapping arithmetic (also proved bit-precisely by Kani)
 pub proof fn lemma_wrapping_add_assoc(x: int, c1: int, c2: int)
   ensures wrap32(wrap32(x + c1) + c2) == wrap32(x + wrap32(c1 + c2))  // :wrapping_add_is_associative
@@ -72,6 +79,28 @@ pub proof fn lemma_wrapping_distribute(b: int, m: int, i: int, c: int)
   assert(b * (m * c + k3 * mm) + k4 * mm + (i * c + k5 * mm) == (b * m + i) * c + (b * k3 + k4 + k5) * mm) by (nonlinear_arith);
   lemma_wrap32_congruent(wrap32(wrap32(b * m) + i) * c, (b * m + i) * c, (k1 + k2) * c);
   lemma_wrap32_congruent(wrap32(b * wrap32(m * c)) + wrap32(i * c), (b * m + i) * c, b * k3 + k4 + k5);
+}
+
+/// adding two derived induction variables over the same base component-wise
+pub proof fn lemma_wrapping_add_derived(b: int, m1: int, i1: int, m2: int, i2: int)
+  ensures wrap32(wrap32(wrap32(b * m1) + i1) + wrap32(wrap32(b * m2) + i2))
+    == wrap32(wrap32(b * wrap32(m1 + m2)) + wrap32(i1 + i2))  // :adding_derived_induction_variables
+{
+  let mm = 0x1_0000_0000int;
+  let k1 = lemma_wrap32_is_plus_multiple(b * m1);
+  let k2 = lemma_wrap32_is_plus_multiple(wrap32(b * m1) + i1);
+  let k3 = lemma_wrap32_is_plus_multiple(b * m2);
+  let k4 = lemma_wrap32_is_plus_multiple(wrap32(b * m2) + i2);
+  let k5 = lemma_wrap32_is_plus_multiple(m1 + m2);
+  let k6 = lemma_wrap32_is_plus_multiple(b * wrap32(m1 + m2));
+  let k7 = lemma_wrap32_is_plus_multiple(i1 + i2);
+  let t = b * m1 + i1 + b * m2 + i2;
+  assert(b * (m1 + m2 + k5 * mm) + k6 * mm + (i1 + i2 + k7 * mm) == t + (b * k5 + k6 + k7) * mm) by (nonlinear_arith)
+    requires t == b * m1 + i1 + b * m2 + i2;
+  assert((b * m1 + k1 * mm + i1 + k2 * mm) + (b * m2 + k3 * mm + i2 + k4 * mm) == t + (k1 + k2 + k3 + k4) * mm) by (nonlinear_arith)
+    requires t == b * m1 + i1 + b * m2 + i2;
+  lemma_wrap32_congruent(wrap32(wrap32(b * m1) + i1) + wrap32(wrap32(b * m2) + i2), t, k1 + k2 + k3 + k4);
+  lemma_wrap32_congruent(wrap32(b * wrap32(m1 + m2)) + wrap32(i1 + i2), t, b * k5 + k6 + k7);
 }
 
 // ---- link to Rust's operators (vstd's specs of wrapping_mul / wrapping_add on i32)
